@@ -5,6 +5,6 @@ cd "$(dirname "$0")"
 mkdir -p work evidence
 export CARGO_NET_OFFLINE=true
 [ -f tools/gen_tables.py ] && python3 tools/gen_tables.py
-(cd lean && lake build)
+(cd lean && lake build ArrModel ArrProofs && for f in Driver/C*.lean; do lake build drv_$(basename $f .lean | tr A-Z a-z); done)
 (cd harness && cp /repo/Cargo.lock Cargo.lock 2>/dev/null || true; cargo build --release --offline)
 echo setup-ok
